@@ -2,6 +2,7 @@ from sqlfluff.core.parser import BaseSegment
 
 from sqllineage.core.holders import StatementLineageHolder
 from sqllineage.core.parser.sqlfluff.extractors.base import BaseExtractor
+from sqllineage.core.models import Table
 from sqllineage.utils.entities import AnalyzerContext
 
 
@@ -22,11 +23,31 @@ class RenameExtractor(BaseExtractor):
         context: AnalyzerContext,
     ) -> StatementLineageHolder:
         holder = StatementLineageHolder()
+        # some dialects wrap the action of ALTER TABLE, RENAME TO new_name, into a segment of its own
+        segments = [
+            s
+            for t in statement.segments
+            for s in (
+                t.segments
+                if t.type in ("alter_table_properties", "alter_table_action_segment")
+                else [t]
+            )
+            if s.is_code
+        ]
         tables = []
-        for t in statement.segments:
+        for idx, t in enumerate(segments):
             if table := self.find_table(t):
                 tables.append(table)
-        keywords = [t for t in statement.segments if t.type == "keyword"]
+            elif (
+                idx >= 2
+                and not t.segments
+                and t.type != "keyword"
+                and segments[idx - 1].raw_upper == "TO"
+                and segments[idx - 2].raw_upper == "RENAME"
+            ):
+                # ... and some give the new name as a plain identifier
+                tables.append(Table(t.raw))
+        keywords = [t for t in segments if t.type == "keyword"]
         if any(k.raw_upper == "RENAME" for k in keywords) and len(tables) % 2 == 0:
             for i in range(0, len(tables), 2):
                 holder.add_rename(tables[i], tables[i + 1])
